@@ -83,6 +83,56 @@ def probe(prop: str, cases: list[tuple[str, str, iltext.Body]], seeds: list[int]
     return res
 
 
+EXCESS = """
+(* Programs on which the model and the real output DISAGREE (K2): the first state on which the REAL effect is wrong (differs
+   from C or gets stuck) while the model of the current tree - all known defects included - is right (or rejects). *)
+Definition is_bad (v : verdict) : bool := match v with Differ | ILStuck => true | _ => false end.
+Definition excess (c : N * cstmts * body) : option (Z * N) :=
+  let '(h, p, b) := c in
+  match denote b with
+  | None => None
+  | Some e =>
+      match tlower (cfg_insn h) p with
+      | OK (em, _) =>
+          match find (fun s => is_bad (run_one xi csub_table ilsub_table {fuel} p e s) && negb (is_bad (run_one xi csub_table ilsub_table {fuel} p em s))) seeds with
+          | Some s => Some (s, verdict_code (run_one xi csub_table ilsub_table {fuel} p e s))
+          | None => None end
+      | Err _ => first_bad xi csub_table ilsub_table {fuel} p e seeds
+      end
+  end.
+"""
+
+
+def excess(prop: str, cases, nseeds=160, fuel=300, timeout=900):
+    """cases: (id, hstart, ast_coq, body) for programs with K2 status 2..4.  {id: (seed, kind)} for those with an excess failure"""
+    if not cases:
+        return {}
+    seeds = [(common.seed() * 17 + i * 13 + 5) % 100003 for i in range(nseeds)]
+    files = {}
+    shard = max(1, -(-len(cases) // common.NPROC))
+    ids = [c[0] for c in cases]
+    for k in range(0, len(cases), shard):
+        chunk = cases[k:k + shard]
+        rows = ";\n".join(f"({h}%N, {a}, {b.coq()})" for _, h, a, b in chunk)
+        fl = fuel if all(a.count("SFor") < 2 for _, _, a, _ in chunk) else 80
+        files[f"exc_{k // shard:04d}"] = (HEADER.format(seeds="[" + "; ".join(str(x) for x in seeds) + "]", fuel=fl) + EXCESS.replace("{fuel}", str(fl))
+                                           + f"Definition xcases : list (N * cstmts * body) := [\n{rows}\n].\nEval vm_compute in (map excess xcases).\n")
+    ok, outs, err = common.run_case_files(prop + "_exc", files, timeout=timeout)
+    if not ok:
+        raise RuntimeError("excess case files failed: " + err[-2000:])
+    res = {}
+    for name in sorted(outs):
+        k = int(name.split("_")[1]) * shard
+        v = common.coq_printed_values(outs[name])[-1].replace("%N", "").replace("%Z", "")
+        body = v.strip()[1:-1]
+        parts = [x.strip() for x in re.split(r";(?![^()]*\))", body)] if body.strip() else []
+        for j, part in enumerate(parts):
+            m = re.search(r"Some \((-?\d+), (\d+)\)", part)
+            if m:
+                res[ids[k + j]] = (int(m.group(1)), int(m.group(2)))
+    return res
+
+
 def parse_option_list(v: str):
     """parse `[Some (3%N, 24%nat, None); None; Some (0%N, 12%nat, Some (5, 3%N))]`"""
     v = v.replace("%N", "").replace("%nat", "").replace("%Z", "")
